@@ -2,8 +2,8 @@
 import ipaddress
 from typing import Optional
 
-from cincoconfig import (BoolField, BytesField, FilenameField, HostnameField, IPv4AddressField, IPv4NetworkField,
-                         PortField, Schema, StringField, UrlField)
+from cincoconfig import (BoolField, BytesField, ChallengeField, FilenameField, HostnameField, IPv4AddressField, IPv4NetworkField,
+                         PortField, Schema, SecureField, StringField, UrlField)
 
 from vf.hlib import TIER, hold, known, obligation, skip
 from vf.hlib.stubs import FakeFS
@@ -442,7 +442,7 @@ def string_case_changes_length(si: int, upper: bool, lo: Optional[int], hi: Opti
             encodes=["cincoconfig.fields.dict_field.DictField.to_basic", "cincoconfig.fields.dict_field.DictField.to_python",
                      "cincoconfig.fields.list_field.ListField.to_basic", "cincoconfig.fields.list_field.ListField.to_python"],
             what="typed containers whose KEYS, values or items have a non-trivial on-disk form (Dict(Bytes hex -> Int), "
-                 "Dict(Str -> Bytes), List(Bytes), List(List(Bytes))): to_python(to_basic(v)) == v, menu of byte strings")
+                 "Dict(Str -> Bytes), List(Bytes), List(List(Bytes)), List(Secure), Dict(Str -> Secure), List(Challenge)): to_python(to_basic(v)) == v, menu of byte strings")
 def container_codec_inverse(bi: int, bj: int, n: int) -> bool:
     """
     pre: 0 <= bi < 7 and 0 <= bj < 7 and 0 <= n <= 2
@@ -472,11 +472,32 @@ def _codec_inverse(b1: bytes, b2: bytes, n: int) -> bool:
     schema.dv = DictField(StringField(), BytesField())
     schema.lb = ListField(BytesField())
     schema.ll = ListField(ListField(BytesField(encoding="hex")))
-    cfg = schema()
+    schema.ls = ListField(SecureField(method="xor"))
+    schema.ds = DictField(StringField(), SecureField(method="xor"))
+    schema.lc = ListField(ChallengeField("md5"))
+    fs = FakeFS(files={"/k/c05.key": bytes(range(1, 33))}, dirs=["/k"])
+    with fs.patched():
+        return _codec_inverse_body(schema, b1, b2, n)
+
+
+def _codec_inverse_body(schema, b1: bytes, b2: bytes, n: int) -> bool:
+    cfg = schema(key_filename="/k/c05.key")
     cfg.dk = dict([(b1, 1), (b2, 2)][:n])
     cfg.dv = dict([("a", b1), ("b", b2)][:n])
     cfg.lb = [b1, b2][:n]
     cfg.ll = [[b1], [b2, b1]][:n]
+    cfg.ls = ["s3cret", "pw"][:n]
+    cfg.ds = dict([("a", "s3cret"), ("b", "pw")][:n])
+    cfg.lc = ["s3cret"][:n]
+    for key in ("ls", "ds", "lc"):
+        field = schema[key]
+        val = cfg[key]
+        back = field.to_python(cfg, field.to_basic(cfg, val))
+        if key == "lc":
+            same = len(back) == len(val) and all(a.salt == b.salt and a.digest == b.digest for a, b in zip(back, val))
+        else:
+            same = (dict(back) == dict(val)) if key == "ds" else (list(back) == list(val))
+        hold("rt", same, lambda: "%s: to_python(to_basic(%r)) = %r" % (key, val, back))
     for key in ("dk", "dv", "lb", "ll"):
         field = schema[key]
         val = cfg[key]
